@@ -134,5 +134,38 @@ def sageExplainM (names : List Nat) (imputeM : List Nat → Nat → M K (List (D
                seen := w.seen + 1 })) (fun _ =>
   M.bind M.get (fun w => M.pure w.est.importanceValues)))))
 
+/-! ### BatchSage.explain_many with effects -/
+
+/-- sequential left fold with effects (a Python `for` loop that updates an accumulator) -/
+def M.foldlM' {α β : Type} (f : β → α → M K β) : β → List α → M K β
+  | b, [] => M.pure b
+  | b, a :: as => M.bind (f b a) (fun b' => M.foldlM' f b' as)
+
+/-- the feature order drawn for one observation: `[names[i] for i in np.random.permutation(len(names))]`, the draw being
+    indexed by the invocation counter at the start of that observation -/
+def permChainAt (names : List Nat) (permutation : Nat → Nat → List Nat) (c : Nat) : List Nat :=
+  (permutation c names.length).map (fun i => names.getD i 0)
+
+/-- one explained observation of `explain_many`: loss of the data set's mean prediction, then the permutation chain; the
+    contributions are added to the running per-feature sums -/
+def batchObsM (names : List Nat) (permutation : Nat → Nat → List Nat)
+    (imputeMx : Inst V → List Nat → Nat → M K (List (Dict K))) (n : Nat) (mp : Dict K) (acc : Dict K) (xy : Inst V × Y) :
+    M K (Dict K) :=
+  M.bind M.get (fun w =>
+  M.bind (callLoss O xy.2 mp) (fun l0 =>
+  M.bind (sageChainM O (imputeMx xy.1) xy.2 n (permChainAt names permutation w.calls) names l0) (fun contribs =>
+  M.pure (addContribs acc contribs))))
+
+/-- `BatchSage.explain_many(x_data, y_data, n)`: one (row-wise) batch prediction, the per-observation chains over
+    `zip(x_data, y_data)`, division by the number of explained observations (by `len(x_data)` when nothing was explained) -/
+def batchSageM (names : List Nat) (permutation : Nat → Nat → List Nat)
+    (imputeMx : Inst V → List Nat → Nat → M K (List (Dict K))) (xs : List (Inst V)) (ys : List Y) (n : Nat) : M K (Dict K) :=
+  M.bind (M.mapM' (callModel O) xs) (fun preds =>
+  let mp := meanOutput preds
+  let data := List.zip xs ys
+  M.bind (M.foldlM' (batchObsM O names permutation imputeMx n mp) (names.map (fun f => (f, (0 : K)))) data) (fun sums =>
+  let nd := if data.isEmpty then xs.length else data.length
+  M.pure (sums.map (fun kv => (kv.1, kv.2 / (nd : K))))))
+
 end
 end Ixai
